@@ -78,6 +78,7 @@ def handle (cmd : String) (fs : List String) : String :=
     match parseE (decodeLines n ls) with
     | .ok evs => showEvents evs
     | .error .valueError => "RAISE:ValueError"
+  | "lines", [t] => ",".intercalate ((outputLines (decodeStr t)).map encodeStr)
   | "state", [n, ls] => showState (run PState.init (decodeLines n ls)).1
   | "verdict", [ef, inter, rc, n, ls] =>
     (verdict (ef == "1") (inter == "1") rc.toInt! (parse (decodeLines n ls))).name
